@@ -86,6 +86,9 @@ def run(name, checks):
         return 2
     rc, out = sh("git -C " + REPO + " apply %s" % os.path.join(d, "patch.diff"))
     if rc != 0:
+        # the tree has moved on since the change was written: try a three-way application
+        rc, out = sh("git -C " + REPO + " apply --3way %s && git -C %s reset -q" % (os.path.join(d, "patch.diff"), REPO))
+    if rc != 0:
         print("patch does not apply to " + REPO + ":\n" + out)
         return 2
     try:
